@@ -2,6 +2,7 @@ use std::borrow::Cow;
 use std::collections::hash_map::Entry;
 use std::collections::{BTreeMap, HashMap, HashSet, VecDeque};
 use std::ops::Range;
+use std::panic::{catch_unwind, AssertUnwindSafe};
 #[cfg(not(locustdb_verif))]
 use std::sync::atomic::{AtomicBool, Ordering};
 #[cfg(locustdb_verif)]
@@ -213,7 +214,12 @@ impl InnerLocustDB {
     fn worker_loop(locustdb: Arc<InnerLocustDB>) {
         while locustdb.running.load(Ordering::SeqCst) {
             if let Some(task) = InnerLocustDB::await_task(&locustdb) {
-                task.execute();
+                // A panicking task must not take the worker thread down with it. The caller
+                // learns about the failure through the task's result channel, which is closed
+                // when the last reference to the task is dropped.
+                if catch_unwind(AssertUnwindSafe(|| task.execute())).is_err() {
+                    log::error!("Task panicked in worker thread");
+                }
             }
         }
         drop(locustdb) // Make clippy happy
